@@ -64,6 +64,16 @@ def run(ctx):
                 hostile.append(("imports-%d-x%d" % (n, k), many_imports(hello["blob"], n, k)))
             except Exception as e:
                 ctx.cov["imports_generator_error"] = str(e)[:200]
+        # a module that CALLS an external function the host cannot resolve, under names that end up in the daemon's error reply:
+        # format directives, a very long name, bytes above 0x7f (the reply must quote them, not interpret them)
+        try:
+            extm = next(m for m in mods if m["name"] == "uses-extern")
+            for hn in (b"%s%s%s%s%s%s%s%s%s%s%n_", b"%n", b"100%", b"%999999d", b"%%", b"labs_" + b"x" * 300, b"l\xc3\xa9bs", b"%1$s%2$s"):
+                pm = nvm.parse(extm["blob"])
+                pm.strings = [hn if x == b"labs" else x for x in pm.strings]
+                hostile.append(("unresolvable-extern-%s" % hn[:12].decode("latin-1"), pm.build()))
+        except Exception as e:
+            ctx.cov["extern_name_generator_error"] = str(e)[:200]
         envx = dict(envx or {}, PATH=os.path.join(tdir, "bin") + ":" + os.environ.get("PATH", ""))
         d = vmd.Daemon(tdir, td, env_extra=envx)
 
